@@ -536,7 +536,9 @@ func (b *assignmentBuilder) sliceToSlice(lhs, rhs bmodel.Node) (a gmodel.Assignm
 	}
 
 	if types.AssignableTo(rhsElem, lhsElem) {
-		if util.IsBasicType(rhsElem) {
+		// copy() needs identical element types; merely assignable ones (int into interface{}) are
+		// assigned element by element.
+		if util.IsBasicType(rhsElem) && types.Identical(rhsElem, lhsElem) {
 			a = gmodel.SliceAssignment{
 				LHS: lhs.AssignExpr(),
 				RHS: rhs.AssignExpr(),
